@@ -14,7 +14,8 @@ model parser on `infixGrammar t` returns exactly `[nest t e]`, where `nest` make
 `[a0, op, a1, op, …, an]` of a left-associative chain (`chain_nest`).  `ClassT ⊆ ClassTL` and `WF ⊆ WFL`
 (`ClassT.toTL`, `WF.toWFL`), so the statement subsumes `infix_roundtrip_partial`.
 
-STILL MISSING (oracle/correspondence only): postfix and ternary levels, kept (non-Suppress) parentheses, level parse
+Postfix levels and kept (non-Suppress) parentheses are added by `infix_roundtrip_general_partial` (C16Gen.lean), which
+contains this statement as an instance.  It also covers ternary levels.  STILL MISSING there (oracle/correspondence only): level parse
 actions, overlapping spellings, ill-formed strings, packrat.
 -/
 namespace PP.Infix.Left
